@@ -34,7 +34,7 @@ RULE = (
     "decide it); distinct = SHA-1 of the case."
 )
 ASSUMPTIONS = [
-    "brute-force oracle bounded to n <= 9 atoms; larger pairs only when an "
+    "brute-force oracle bounded to n <= 20 atoms and 300k search nodes (cut-off = no verdict, counted); larger pairs only when an "
     "invariant proves non-isomorphism",
     "only the direction 'equal => isomorphic' is asserted here (the converse "
     "is C01)",
@@ -94,14 +94,14 @@ def gen_pair(tp: S.Tape, classes=("MG", "SMG", "CRG", "SCRG", "SMG", "SCRG"),
         return {"src": src, "a": S.shuffled_recipe(tp, m1),
                 "b": S.shuffled_recipe(tp, m2), "kind": f"{cls}-{other}"}
     big = src == "big"
-    m1 = S.gen_model(tp, cls, nmax=30 if big else 8, nmin=9 if big else 2,
+    m1 = S.gen_model(tp, cls, nmax=30 if big else 8, nmin=21 if big else 2,
                      kmax=3)
     m2, kind = S.mutate(tp, m1)
     if m2 is None:
         m2, kind = m1.copy(), "none"
     rb, _ = S.variant_from(m2, list(S.renaming(tp, m2.atoms).items()),
                            tp.below(1 << 30))
-    return {"src": "big" if len(m1.atoms) > 9 else "mutant",
+    return {"src": "big" if len(m1.atoms) > 20 else "mutant",
             "a": S.shuffled_recipe(tp, m1), "b": rb, "kind": kind}
 
 
@@ -171,9 +171,14 @@ def check_case(ctx, case):
             raise Violation(f"C02/crossclass/{ca}-vs-{cb}/equal",
                             f"a==b {e1}, b==a {e2}")
         return
-    small = len(ma.atoms) <= 9
+    small = len(ma.atoms) <= 20
     if small:
-        want = iso.exists(ma, mb)
+        try:
+            want = iso.exists(ma, mb)
+        except iso.BudgetExceeded:
+            small = False
+    if small:
+        pass
     elif certainly_different(ma, mb):
         want = False
     else:
@@ -198,11 +203,14 @@ def run(ctx):
         labs = [f"src:{case['src']}", f"cls:{ma.cls}"]
         if case.get("kind"):
             labs.append(f"kind:{case['kind']}")
-        if ma.cls == mb.cls and len(ma.atoms) <= 9:
-            labs.append("oracle-equal" if iso.exists(ma, mb)
-                        else "oracle-unequal")
-            if nt:
-                labs.append(labs[-1] + "-nontrivial")
+        if ma.cls == mb.cls and len(ma.atoms) <= 20:
+            try:
+                labs.append("oracle-equal" if iso.exists(ma, mb)
+                            else "oracle-unequal")
+                if nt:
+                    labs.append(labs[-1] + "-nontrivial")
+            except iso.BudgetExceeded:
+                labs.append("oracle-budget-exceeded")
         ctx.note(case, nt, labs)
         check_case(ctx, case)
 
